@@ -61,6 +61,19 @@ STR_PATTERNS = ['a', '^a', 'b$', '.', '', 'A|b']
 # patterns that match str() of a NON-string cell (1, 1.0, 2.5, -1.5, 1000, None, nan): a regex condition must still reject those cells
 COERCE_PATTERNS = ['1', '0', r'\.5', '-', 'N', 'on', 'nan', '^[0-9.]+$', 'inf']
 PATTERNS = STR_PATTERNS + COERCE_PATTERNS
+# patterns whose meaning hangs on the flags the caller compiled them with: ignore-case against the lower-case cells, multi-line / dot-all against the cell 'a\nb'
+FLAG_PATTERNS = [['A', 'I'], ['^AB$', 'I'], ['B$', 'I'], ['^b', 'M'], ['a$', 'M'], ['a.b', 'S'], ['a b', 'X'], ['^B', 'IM']]
+_RE_FLAGS = dict(I=re.IGNORECASE, M=re.MULTILINE, S=re.DOTALL, X=re.VERBOSE)
+
+
+def _rx(payload):
+    """(pattern text, flags) of a regex payload: a plain string, or [text, letters out of IMSX]"""
+    if isinstance(payload, list):
+        flags = 0
+        for ch in payload[1]:
+            flags |= _RE_FLAGS[ch]
+        return payload[0], flags
+    return payload, 0
 LARGE_QUICK = [64, 65, 100, 128, 200]
 LARGE_THOROUGH = [64, 65, 100, 128, 200, 257, 500]
 
@@ -97,7 +110,7 @@ def _sat(cell, cond, env, inf_nan=None):
     if kind == 'nan':
         return inf_nan if _is_inf(cell) else _is_nan(cell)
     if kind == 'regex':
-        return isinstance(cell, str) and re.search(payload, cell) is not None
+        return isinstance(cell, str) and re.search(_rx(payload)[0], cell, _rx(payload)[1]) is not None
     if kind == 'val':
         v = build(payload, env)
         return bool(cell is v or cell == v)             # bool(): a numpy scalar compares to numpy.bool
@@ -138,7 +151,7 @@ def _cond_value(cond, env, table=None):
     if kind == 'nan':
         return env.nan(payload)
     if kind == 'regex':
-        return re.compile(payload)
+        return re.compile(*_rx(payload))
     if kind == 'val':
         return _fresh(build(payload, env))
     if kind == 'list':
@@ -565,8 +578,12 @@ def run_partition(spec):
                 cls.append('nan_cond_on_nan_column')
             if k == 'nan' and isinstance(v, np.generic):
                 cls.append('numpy_scalar')
-            if k == 'regex' and any(not isinstance(x, str) and re.search(p, str(x)) is not None for x in data[c]):
+            if k == 'regex' and any(not isinstance(x, str) and re.search(_rx(p)[0], str(x), _rx(p)[1]) is not None for x in data[c]):
                 cls.append('regex_matches_str_of_nonstr_cell')       # where a str()-coercing implementation would differ
+            if k == 'regex' and _rx(p)[1]:
+                cls.append('regex_compiled_with_flags')
+                if any(isinstance(x, str) and (re.search(_rx(p)[0], x, _rx(p)[1]) is None) != (re.search(_rx(p)[0], x, _rx(p)[1] & re.VERBOSE) is None) for x in data[c]):
+                    cls.append('regex_flags_decide_a_row')
             if k in ('val', 'list', 'objs'):
                 vs = [v] if k == 'val' else v
                 if any(x == y and x is not y for x in data[c][:200] for y in vs[:200]):
@@ -931,7 +948,7 @@ _VALUE = st.one_of(_INTS, _FLOATS, _STRS, st.sampled_from([1000, 'aba']))       
 _FLAVOURS = {
     'mixed': _CELL,
     'ints': st.integers(0, 2),
-    'strs': st.sampled_from(['a', 'ab', 'b']),
+    'strs': st.sampled_from(['a', 'ab', 'b', 'a', 'ab', 'b', 'a\nb']),
     'ints_nan': st.one_of(st.integers(0, 1), _NAN),
     'ints_none': st.one_of(st.integers(0, 1), st.none()),
     'one_onefloat': st.one_of(st.sampled_from([1, 1.0, 2]), _NAN, st.none()),
@@ -1051,6 +1068,8 @@ def _column_cond(draw, cells, n=None, others=None):
             pats = STR_PATTERNS * 3 + COERCE_PATTERNS
         else:
             pats = COERCE_PATTERNS * 2 + STR_PATTERNS
+        if has_str and draw(st.integers(0, 2)) == 0:
+            return ['regex', FLAG_PATTERNS[draw(st.integers(0, 9999)) % len(FLAG_PATTERNS)]]
         return ['regex', pats[draw(st.integers(0, 9999)) % len(pats)]]
     pool = st.sampled_from(present) if present else _VALUE
     if kind == 'val':
@@ -1297,7 +1316,7 @@ SUBS = [
              'inc() = identity, inc twice = once, table untouched; for dict + keywords and several dicts (and half of the one-dict / same-dict-twice cases) the caller\'s dict objects are used for a second call, ONE of them on its own, which must select by what the caller wrote into it. non-trivial = at least one row and (both parts non-empty, or a None/NaN/regex condition, '
              'or the condition matches all / no rows); distinct = distinct spec',
         floor=0.5,
-        class_floors={'both_nonempty': 0.15, 'all': 0.03, 'nothing': 0.08, 'cond=nan': 0.05, 'cond=none': 0.05, 'cond=regex': 0.05, 'cond=list': 0.1,
+        class_floors={'regex_compiled_with_flags': 0.01, 'regex_flags_decide_a_row': 0.005, 'both_nonempty': 0.15, 'all': 0.03, 'nothing': 0.08, 'cond=nan': 0.05, 'cond=none': 0.05, 'cond=regex': 0.05, 'cond=list': 0.1,
                       'cond=val': 0.1, 'nconds=2': 0.1, 'form=none': 0.02, 'form=emptydict': 0.01, 'interleaved': 0.05, 'n=0': 0.01,
                       'nan_cond_on_nan_column': 0.02, 'condition_dict_reused_across_calls': 0.05, 'condition_dict_reused:keywords_mattered': 0.02,
                       # the bug classes of the brief's appendix
